@@ -183,6 +183,10 @@ func pkgOfSymbol(sym string, pkgs []string) string {
 }
 
 func main() {
+	if os.Getenv("C10_EFF_WORKER") != "" {
+		effWorkerMain()
+		return
+	}
 	r := hlib.Start("C10")
 	if r.IsGen() {
 		writeGenNames(r)
@@ -339,6 +343,7 @@ func main() {
 
 	r.Extra("t_compile_s", <-jobsDone)
 	r.Extra("objects", len(jobs))
+	t5 := time.Now()
 	for _, j := range jobs {
 		if j.err != nil {
 			fatal("compile %s: %v", j.key(), j.err)
@@ -521,14 +526,17 @@ func main() {
 		declTie(r, sums[pn], string(csrc), "std/"+pn)
 	}
 
+	r.Extra("t_objreport_s", time.Since(t5).Seconds())
 	// ---- pure-method clause on std
 	t3 := time.Now()
 	runStdPure(r, sb, work, sums, stdNames, wholePlain[ship], stdRand)
 	r.Extra("t_stdpure_s", time.Since(t3).Seconds())
 
 	// ---- generated packages (started above)
+	t6 := time.Now()
 	finishGenerated()
 	r.Extra("t_generated_done_after_s", time.Since(t2).Seconds())
+	r.Extra("t_generated_wait_report_s", time.Since(t6).Seconds())
 
 	// ---- C runs of suspicious accepted effect programs (started above)
 	finishEffC()
